@@ -375,4 +375,54 @@ interface the constructor ids are pairwise distinct (the `switch id` is a functi
 def Schema.wf (S : Schema) : Bool :=
   S.ctors.toList.all Ctor.ok && S.ifaces.toList.all (idsDistinct S)
 
+/-! ### The MTProto and end-to-end schemas as a Lean term (regenerated in `Gen/C21.lean`) -/
+
+/-- Numeric encoding of `Ty` used by the regenerated facts. -/
+def tyOfCodes : List Nat → Option Ty
+  | [0] => some .int
+  | [1] => some .long
+  | [2] => some .double
+  | [3] => some .int128
+  | [4] => some .int256
+  | [5] => some .str
+  | [6] => some .bool
+  | [7] => some .trueFlag
+  | [8] => some .flags
+  | [9] => some .generic
+  | [10, i] => some (.boxed i)
+  | [11, c] => some (.ctor c false)
+  | [12, c] => some (.ctor c true)
+  | 13 :: rest => (tyOfCodes rest).map (.vec false)
+  | 14 :: rest => (tyOfCodes rest).map (.vec true)
+  | _ => none
+
+def fieldsOfCodes : List (List Nat × Option (Nat × Nat)) → Option (List Field)
+  | [] => some []
+  | (codes, cond) :: rest =>
+    match tyOfCodes codes, fieldsOfCodes rest with
+    | some t, some fs => some (⟨t, cond⟩ :: fs)
+    | _, _ => none
+
+def ctorOfCodes (c : Option Nat × Bool × List (List Nat × Option (Nat × Nat))) : Ctor :=
+  match fieldsOfCodes c.2.2 with
+  | some fs => { id := c.1, fields := fs, bad := c.2.1 }
+  | none => { id := c.1, fields := [], bad := true }
+
+/-- The constructors and interfaces of mt/ and tg/e2e/ (they come first in the schema file and
+refer only to each other). -/
+def coreSchema : Schema :=
+  { ctors := (TdModel.Facts.C21.coreCtors.map ctorOfCodes).toArray,
+    ifaces := TdModel.Facts.C21.coreIfaces.toArray }
+
+def Ctor.same (a b : Ctor) : Bool := a.id == b.id && a.fields == b.fields && a.bad == b.bad
+
+/-- `S` starts with exactly the core schema (the driver checks this on the loaded data file). -/
+def Schema.extendsCore (S : Schema) : Bool :=
+  coreSchema.ctors.size ≤ S.ctors.size && coreSchema.ifaces.size ≤ S.ifaces.size &&
+  (List.range coreSchema.ctors.size).all (fun i =>
+    match S.ctors[i]?, coreSchema.ctors[i]? with
+    | some a, some b => a.same b
+    | _, _ => false) &&
+  (List.range coreSchema.ifaces.size).all (fun i => S.ifaces[i]? == coreSchema.ifaces[i]?)
+
 end TdModel.C21
